@@ -6,6 +6,7 @@ import (
 	"go/token"
 	"go/types"
 	"log"
+	"strings"
 
 	"github.com/goghcrow/go-ast-matcher"
 	"github.com/goghcrow/go-imports"
@@ -187,6 +188,11 @@ func (r *rewriter) rewriteFile(f *loader.File, printer FilePrinter) {
 	log.Printf("write file: %s\n", f.Filename)
 	// clear free-floating comments, preventing confusing position of comments
 	// https://github.com/golang/go/issues/20744
+	if r.comments != nil && hasDirectiveDoc(f.File) {
+		// with a comment list the printer ignores the doc comments of the declarations,
+		// prefer their directives (go:embed, go:noinline, cgo preamble ...) to the attached source of func lits
+		r.comments = nil
+	}
 	f.File.Comments = r.comments
 	printer(f.Filename, f)
 }
@@ -200,6 +206,52 @@ func (r *rewriter) rejectStrayYield(c *astutil.Cursor, pkg loader.Pkg) bool {
 		}
 	}
 	return true
+}
+
+// whether any declaration carries a directive comment (//go:xxx, //export) or a cgo preamble
+func hasDirectiveDoc(f *ast.File) bool {
+	directive := func(docs ...*ast.CommentGroup) bool {
+		for _, doc := range docs {
+			if doc == nil {
+				continue
+			}
+			for _, c := range doc.List {
+				if strings.HasPrefix(c.Text, "//go:") || strings.HasPrefix(c.Text, "//export ") {
+					return true
+				}
+			}
+		}
+		return false
+	}
+	for _, decl := range f.Decls {
+		switch d := decl.(type) {
+		case *ast.FuncDecl:
+			if directive(d.Doc) {
+				return true
+			}
+		case *ast.GenDecl:
+			if directive(d.Doc) {
+				return true
+			}
+			for _, spec := range d.Specs {
+				switch sp := spec.(type) {
+				case *ast.ValueSpec:
+					if directive(sp.Doc) {
+						return true
+					}
+				case *ast.TypeSpec:
+					if directive(sp.Doc) {
+						return true
+					}
+				case *ast.ImportSpec:
+					if sp.Path.Value == `"C"` && (d.Doc != nil || sp.Doc != nil) {
+						return true
+					}
+				}
+			}
+		}
+	}
+	return false
 }
 
 // ↓↓↓↓↓↓↓↓↓↓↓↓↓↓↓↓↓↓↓↓↓↓ Collect YieldFunc ↓↓↓↓↓↓↓↓↓↓↓↓↓↓↓↓↓↓↓↓↓↓
